@@ -118,4 +118,47 @@ theorem fee_leaf (prog : List Ins) (e : Env) (blockIns : List Ins) (pc0 : Nat) (
     rw [← hvp, truthy_b2n]
     exact this
 
+/-- the tool's leaf matcher on the direct check `txn Fee; int n; op` (field first, literal second, own transaction): it
+    returns the operator table's entry for `op` and `n` -/
+theorem feeSingle_direct (ic : Option (List Nat)) (a : Ast) (p p1 p2 o1 o2 : Nat) (c : Cmp) (n : Nat)
+    (hp : a.opOf p = .cmp c) (hargs : a.argsOf p = [some (p1, o1), some (p2, o2)])
+    (h1 : a.opOf p1 = .txn "Fee") (h2 : a.opOf p2 = .int (.lit n)) :
+    feeSingle ic a ⟨"Fee", .self⟩ p = feeAssertedMax c { value := n } := by
+  unfold feeSingle
+  simp only [hp, hargs]
+  have hm : valueMatchesKey ic a ⟨"Fee", .self⟩ (some (p1, o1)) = true := by
+    unfold valueMatchesKey getIndexAndField
+    simp [h1]
+  have hlit : intLit ic (a.opOf p2) = some n := by
+    rw [h2]; simp [intLit, intPush]
+  simp [hm, hlit]
+
+/-- THE LEAF PREMISE HOLDS ON DIRECT FEE CHECKS.  In a straight run, at a comparison `p` whose stack-AST operands are a
+    `txn Fee` and an `int n`, the tool's leaf matcher for the key Fee is sound for the ACTUAL truth of the leaf: the approved
+    transaction's fee is admitted by the true set when the AVM pushed a non-zero value at `p`, by the false set otherwise -/
+theorem fee_leaf_premise (prog : List Ins) (e : Env) (blockIns : List Ins) (pc0 : Nat) (st : Nat → State) (k : Nat)
+    (hrun : BlockRun prog e blockIns pc0 k st) (valOf : Nat × Nat → Val)
+    (hout : ∀ j, j < k → ∀ i, i < (blockIns[j]!).op.pushes →
+      (st (j + 1)).stack[(st j).stack.length - (blockIns[j]!).op.pops + i]? = some (valOf (j, i)))
+    (hargs : ∀ j, j < k → Forall₂ (Agree valOf) (argsAt blockIns j)
+      ((st j).stack.drop ((st j).stack.length - (blockIns[j]!).op.pops)))
+    (ic : Option (List Nat)) (p p1 p2 : Nat) (c : Cmp) (n : Nat) (hp : p < k) (hp1 : p1 < k) (hp2 : p2 < k)
+    (hopp : (blockIns[p]!).op = .cmp c) (hop1 : (blockIns[p1]!).op = .txn "Fee") (hop2 : (blockIns[p2]!).op = .int (.lit n))
+    (hargsp : argsAt blockIns p = [some (p1, 0), some (p2, 0)]) :
+    ∃ fee, e.field e.self "Fee" = some (.int fee) ∧
+      (fee ≤ MAX_UINT64 →
+        (truthy (valOf (p, 0)) = true → Fee.gamma (feeSingle ic (constructAst blockIns) ⟨"Fee", .self⟩ p).1 fee) ∧
+        (truthy (valOf (p, 0)) = false → Fee.gamma (feeSingle ic (constructAst blockIns) ⟨"Fee", .self⟩ p).2 fee)) := by
+  have hl := hrun.len
+  obtain ⟨fee, hfee, _, hside⟩ := fee_leaf prog e blockIns pc0 st k hrun valOf hout hargs p p1 p2 c n hp hp1 hp2 hopp hop1 hop2 hargsp
+  refine ⟨fee, hfee, ?_⟩
+  intro hle
+  have hsingle := feeSingle_direct ic (constructAst blockIns) p p1 p2 0 0 c n
+    (by rw [opOf_constructAst blockIns p (by omega)]; exact hopp)
+    (by rw [argsOf_constructAst blockIns p (by omega)]; exact hargsp)
+    (by rw [opOf_constructAst blockIns p1 (by omega)]; exact hop1)
+    (by rw [opOf_constructAst blockIns p2 (by omega)]; exact hop2)
+  rw [hsingle]
+  exact hside hle
+
 end Tealer.FeeLeaf
